@@ -153,6 +153,7 @@ static void enumerate(const Input &in, bool counting) {
         g_sh->cur = (long)pos; fflush(stdout); fflush(stderr);
         pid_t pid = fork();
         if (pid == 0) {
+            vc::disable_crash_capture(); // the parent records this child's death with its own (input, k)
             int fd = open(logpath.c_str(), O_WRONLY | O_CREAT | O_TRUNC, 0644); if (fd >= 0) { dup2(fd, 2); dup2(fd, 1); close(fd); }
             alarm(120);
             for (size_t j = pos; j < ks.size(); j++) {
